@@ -13,7 +13,8 @@ from ..ropt_util import outcome_of
 from ..scipydrive import Captured, LoggingSciPyPlugin, manager_with_logging, patched
 
 INF = float("inf")
-POOL = {1: np.array([0.0, 0.0]), 2: np.array([1.0, 2.0]), 3: np.array([-2.0, 1.0])}
+POOL = {1: np.array([0.0, 0.0]), 2: np.array([1.0, 2.0]), 3: np.array([-2.0, 1.0]),
+        4: np.array([1.0, -1.5])}       # 4 shares its first coordinate with 2 (used by the restart scenarios only)
 
 
 OFFSET = 500.0        # two realizations return f and f + 1000: the ensemble value is f + 500
@@ -79,12 +80,15 @@ def run(sc, speculative):
            "realizations": {"weights": [1.0, 1.0]},
            "gradient": {"number_of_perturbations": 5, "perturbation_magnitudes": 0.001}}
     if cls == "pop":
-        cfg["variables"].update({"lower_bounds": [-5.0, -5.0], "upper_bounds": [5.0, 5.0]})
+        # a third, fixed variable whose configured value (9) differs from the value the run is started with (0): every
+        # evaluated vector, single or batch, must carry the start value
+        cfg["variables"] = {"initial_values": POOL[1].tolist() + [9.0], "mask": [True, True, False],
+                            "lower_bounds": [-5.0, -5.0, -10.0], "upper_bounds": [5.0, 5.0, 10.0]}
         cfg["optimizer"]["parallel"] = True
     if hasnl:
         cfg["nonlinear_constraints"] = {"lower_bounds": [-INF], "upper_bounds": [100.0]}
     if haslin:
-        cfg["linear_constraints"] = {"coefficients": [[1.0, 1.0]], "lower_bounds": [-INF], "upper_bounds": [50.0]}
+        cfg["linear_constraints"] = {"coefficients": [[1.0, 1.0] + ([0.0] if cls == "pop" else [])], "lower_bounds": [-INF], "upper_bounds": [50.0]}
     import zlib
     pfail = cls == "grad" and zlib.crc32(str(sc["hist"]).encode()) % 2 == 1      # failures confined to perturbed evaluations
     if pfail:
@@ -96,13 +100,15 @@ def run(sc, speculative):
         hasf = perts is None or bool(np.any(perts < 0))
         hasg = perts is not None and bool(np.any(perts >= 0))
         sel = context.realizations == 0
+        fixedpart = 7.0 * variables[:, 2] if cls == "pop" else 0.0          # zero as long as the fixed variable has its start value
+        variables = variables[:, :2]
         if perts is None:
             pts = [pool_index(v) for v in variables[sel]]
         else:
             base = variables[(perts < 0) & sel] if hasf else variables
             pts = [pool_index(base.mean(axis=0))] if not hasf else [pool_index(v) for v in base]
         evals.append({"pts": pts, "f": hasf, "g": hasg})
-        objectives = (_raw(variables) + 1000.0 * context.realizations)[:, None]
+        objectives = (_raw(variables) + fixedpart + 1000.0 * context.realizations)[:, None]
         if pfail and perts is not None:
             # every perturbed evaluation of the second realization fails: the gradient then rests on the first realization
             # alone (the same gradient), the function values of that point are not concerned
@@ -169,7 +175,8 @@ def run(sc, speculative):
     plan = Plan(OptimizerContext(evaluator=evaluator, plugin_manager=pm))
     step = plan.add_step("optimizer")
     with patched(script=script):
-        _, outcome = outcome_of(lambda: plan.run_step(step, config=cfg))
+        kwargs = {"variables": POOL[1].tolist() + [0.0]} if cls == "pop" else {}
+        _, outcome = outcome_of(lambda: plan.run_step(step, config=cfg, **kwargs))
     if outcome != "ok":
         events.append({"ev": "Req", "op": "run", "xs": [], "ats": [], "outcome": outcome, "cbs": [], "evals": [], "reqpt": 0,
                        "cls": "grad" if cls == "grad" else "nograd", "split": bool(sc["split"]), "speculative": bool(speculative)})
@@ -305,7 +312,75 @@ def drive_real(sc):
                     "constraint_first_at_new_point": False}
 
 
+def drive_restart(sc):
+    """One EnsembleOptimizer object started twice (second variable fixed by the mask, with another start value the second
+    time): the second run begins at the free variables the first one ended with - nothing of the first run may be served."""
+    from ropt.config.enopt import EnOptConfig
+    from ropt.ensemble_evaluator import EnsembleEvaluator
+    from ropt.optimization import EnsembleOptimizer
+    cfg = {"variables": {"initial_values": POOL[4].tolist(), "mask": [True, False]},
+           "optimizer": {"method": "rvscipy/slsqp", "speculative": bool(sc["speculative"]), "split_evaluations": bool(sc["split"])},
+           "realizations": {"weights": [1.0, 1.0]},
+           "gradient": {"number_of_perturbations": 5, "perturbation_magnitudes": 0.001},
+           "nonlinear_constraints": {"lower_bounds": [-INF], "upper_bounds": [100.0]}}
+    evals, events = [], []
+    state = {"run": 0}
+    fixed = {1: POOL[4][1], 2: POOL[2][1]}
+
+    def evaluator(variables, context):
+        perts = context.perturbations
+        hasf = perts is None or bool(np.any(perts < 0))
+        hasg = perts is not None and bool(np.any(perts >= 0))
+        sel = context.realizations == 0
+        if perts is None:
+            pts = [pool_index(v) for v in variables[sel]]
+        else:
+            base = variables[(perts < 0) & sel] if hasf else variables
+            pts = [pool_index(base.mean(axis=0))] if not hasf else [pool_index(v) for v in base]
+        evals.append({"pts": pts, "f": hasf, "g": hasg})
+        return EvaluatorResult(objectives=(_raw(variables) + 1000.0 * context.realizations)[:, None], constraints=fcon(variables)[:, None])
+
+    def script(kw):
+        state["run"] += 1
+        run = state["run"]
+        row = (kw.get("constraints") or [])[0]
+        me = 4 if run == 1 else 2
+        order = ["f", "g", "c", "J"] if run == 1 else [sc["op"]] + [o for o in ("f", "g", "c", "J") if o != sc["op"]]
+        x = np.array([1.0])
+        for op in order:
+            LoggingSciPyPlugin.log.clear(); del evals[:]
+            fn, kind = {"f": (kw["fun"], "f"), "g": (kw["jac"], "g"), "c": (row["fun"], "c_nl"), "J": (row["jac"], "J_nl")}[op]
+            res, outcome = outcome_of(lambda: fn(x))
+            ats = []
+            if outcome == "ok":
+                vals = np.atleast_1d(np.asarray(res, dtype=np.float64))
+                if kind in ("g", "J_nl"):          # only the free variable is exposed: complete with the exact fixed-variable entry
+                    full = np.array([vals[0], (gobj(POOL[me]) if kind == "g" else -gcon(POOL[me]))[1]])
+                    ats.append(decode(kind, full, True))
+                else:
+                    ats.append(decode(kind, float(vals[0]), True))
+            cbs = [{"pt": me, "pts": [me], "f": c["f"], "g": c["g"]} for c in LoggingSciPyPlugin.log]
+            events.append({"ev": "Req", "op": op, "xs": [me], "ats": ats, "outcome": outcome, "cbs": cbs, "reqpt": me,
+                           "evals": [dict(e) for e in evals], "cls": "grad", "split": bool(sc["split"]), "speculative": bool(sc["speculative"])})
+
+    pm = manager_with_logging()
+    config = EnOptConfig.model_validate(cfg)
+    with patched(script=script):
+        optimizer = EnsembleOptimizer(config, EnsembleEvaluator(config, None, evaluator, pm), pm)
+        _, out1 = outcome_of(lambda: optimizer.start(np.array([1.0, fixed[1]])))
+        events.append({"ev": "Reset"})
+        _, out2 = outcome_of(lambda: optimizer.start(np.array([1.0, fixed[2]])))
+    for out in (out1, out2):
+        if out != "ok":
+            events.append({"ev": "Req", "op": "run", "xs": [], "ats": [], "outcome": out, "cbs": [], "evals": [], "reqpt": 0,
+                           "cls": "grad", "split": bool(sc["split"]), "speculative": bool(sc["speculative"])})
+    return events, {"nontrivial": True, "key": "restart|" + json.dumps(sc, sort_keys=True), "cls": "grad", "split": bool(sc["split"]),
+                    "constraint_first_at_new_point": sc["op"] in ("c", "J")}
+
+
 def drive(sc):
+    if sc.get("restart"):
+        return drive_restart(sc)
     if sc.get("real"):
         return drive_real(sc)
     evA, sigA = run(sc, False)
@@ -355,6 +430,10 @@ def extra_scenarios(tier, seed):
             size = int(rng.integers(1, 3))
             hist.append({"op": "f" if rng.random() < 0.6 else "c", "xs": [int(i) for i in rng.integers(1, 4, size)]})
         out.append({"cls": "pop", "speculative": False, "split": bool(rng.integers(2)), "hist": hist, "nl": True, "lin": True})
+    # the same optimizer object started a second time (every callable first, every speculative / split combination)
+    for op in ("f", "g", "c", "J"):
+        for speculative, split in ((False, False), (True, False), (False, True)):
+            out.append({"restart": True, "op": op, "speculative": speculative, "split": split})
     for method in ("nelder-mead", "powell"):
         for _ in range(n // 4):
             hist = [{"op": "f", "x": int(i)} for i in rng.integers(1, 4, int(rng.integers(2, 5)))]
